@@ -61,6 +61,33 @@ func refChainSpec(max int) J {
 	return d
 }
 
+func c07DefGraph(changed bool) J {
+	ty := func(a, b string) string {
+		if changed {
+			return b
+		}
+		return a
+	}
+	obj := func(props J) J { return J{"type": "object", "properties": props} }
+	ref := func(n string) J { return J{"$ref": "#/definitions/" + n} }
+	d := J{"swagger": "2.0", "info": J{"title": "g", "version": "1"}, "paths": J{"/a": J{"get": J{"operationId": "getA", "responses": J{"200": J{"description": "ok", "schema": ref("Used")}}}}}}
+	defs := J{
+		"Used":   obj(J{"a": J{"type": "string"}, "u": ref("Shared")}),
+		"Shared": obj(J{"s": J{"type": ty("string", "integer")}}),
+		"U1":     obj(J{"x": ref("U2"), "y": J{"type": ty("string", "boolean")}}),
+		"U2":     obj(J{"z": ref("U3"), "w": J{"type": ty("integer", "string")}}),
+		"U3":     obj(J{"v": J{"type": ty("string", "integer")}}),
+		"U4":     obj(J{"q": ref("U2"), "l": J{"type": "array", "items": ref("U3")}}),
+		"U6":     obj(J{"only": ref("U7")}),
+		"U7":     obj(J{"leaf": J{"type": ty("number", "string")}}),
+	}
+	if changed {
+		defs["U5"] = obj(J{"n": J{"type": "string"}})
+	}
+	d["definitions"] = defs
+	return d
+}
+
 func denseSpec() J {
 	d := richSpec()
 	d["consumes"] = A{"application/json", "application/xml", "application/x-tar.gz", "text/plain"}
@@ -194,6 +221,12 @@ func c07Commands(s *Scratch) []c07Cmd {
 		}
 	}
 	k1, k2 := filepath.Join(RepoDir(), "fixtures/diff/kitchensink.v1.json"), filepath.Join(RepoDir(), "fixtures/diff/kitchensink.v2.json")
+	// a definition graph with definitions no operation uses, referring to each other, each one changed
+	g1, g2 := c07DefGraph(false), c07DefGraph(true)
+	out = append(out,
+		specCmd("diff txt [definition graph with unused definitions]", func(in, o string) []string { return []string{"diff", in, "@in2", "-d", o} }, g1, g2),
+		specCmd("diff json [definition graph with unused definitions]", func(in, o string) []string { return []string{"diff", "-f", "json", in, "@in2", "-d", o} }, g1, g2),
+	)
 	out = append(out,
 		specCmd("flatten [dense]", func(in, o string) []string { return []string{"flatten", in, "-o", o} }, denseSpec(), nil),
 		specCmd("flatten --with-flatten=full [dense]", func(in, o string) []string { return []string{"flatten", "--with-flatten=full", in, "-o", o} }, denseSpec(), nil),
